@@ -141,7 +141,21 @@ def check_middleware(acc):
     strings = [a + sep + b for a in CATALOGUE[:6] for b in CATALOGUE[:6] for sep in SEPS[:3]] + CATALOGUE + ["", "  "]
     for s in strings:
         for inplace in (True, False):
-            fields = [Field("author", s), Field("title", s), Field("editor", s), Field("translator", s), Field("Author", s)]
+            from ..subtypes import S
+
+            # the caller edits what an earlier call returned, then the same text is split again (function and middleware)
+            try:
+                r1 = split_multiple_persons_names(s)
+                keep = list(r1)
+                r1.append("edited by the caller")
+                r1[:1] = []
+                r2 = split_multiple_persons_names(s)
+                if r2 != keep or r2 is r1:
+                    acc.violation({"oracle": "result_is_independent_of_earlier_results", "route": "function"}, {"case": {"middleware": s, "inplace": inplace}, "observed": r2, "expected": keep})
+            except Exception as ex:
+                acc.exception(ex, {"middleware": s, "inplace": inplace}, "split_multiple_persons_names twice")
+            # (translator: an instance of a str subclass - a string all the same)
+            fields = [Field("author", s), Field("title", s), Field("editor", s), Field("translator", S(s)), Field("Author", s)]
             if "and" in s.lower():
                 # programmatically built entries may hold a key twice: every occurrence is its own value
                 twice = Entry("article", "k2", [Field("author", s), Field("author", "X Y" + SEPS[0] + "Z"), Field("author", s)])
@@ -171,6 +185,16 @@ def check_middleware(acc):
                         acc.violation({"oracle": "middleware_leaves_other_fields", "field": k}, {"case": case, "observed": got[k], "expected": s})
                 if [f.key for f in e2.fields] != [f.key for f in fields] or (e2.entry_type, e2.key, e2.start_line, e2.raw) != ("article", "k", 3, "raw"):
                     acc.violation({"oracle": "middleware_leaves_entry"}, {"case": case, "observed": repr(e2), "expected": "same keys/type/key/line/raw"})
+                # results edited by the caller, then an equal entry goes through a (new and the same) middleware
+                for f in e2.fields:
+                    if isinstance(f.value, list):
+                        f.value.append("edited by the caller")
+                again = SeparateCoAuthors(allow_inplace_modification=inplace).transform(Library([Entry("article", "k", [Field("author", s), Field("editor", s)])])).entries[0]
+                if [f.value for f in again.fields] != [exp, exp] or again.fields[0].value is again.fields[1].value:
+                    acc.violation({"oracle": "result_is_independent_of_earlier_results", "route": "middleware"}, {"case": case, "observed": [f.value for f in again.fields], "expected": [exp, exp]})
+                for f in e2.fields:
+                    if isinstance(f.value, list):
+                        f.value.pop()
                 back = MergeCoAuthors(allow_inplace_modification=inplace).transform(out).entries[0]
                 got2 = {f.key: f.value for f in back.fields}
                 for k in ("author", "editor", "translator"):
